@@ -150,11 +150,11 @@ CONFIGS: Dict[str, Dict[str, List[Dict[str, Any]]]] = {
         ],
     },
     "CVRP": {
-        "quick": [_c("default"), _c("n10c3d3sparse", nodes=10, cap=3, demand=3, reward="sparse")],
+        "quick": [_c("default"), _c("n10c3d3sparse", nodes=10, cap=3, demand=3, reward="sparse"), _c("pad12c9d4", gen="padded", nodes=12, cap=9, demand=4, props=["C01", "C02", "C03", "C04", "C05", "C06", "C08", "C09", "C11", "C12"])],
         "thorough": [
             _c("default"), _c("n2c2d2", nodes=2, cap=2, demand=2), _c("n5c10d10", nodes=5, cap=10, demand=10),
             _c("n10c3d3sparse", nodes=10, cap=3, demand=3, reward="sparse"), _c("n10c3d3", nodes=10, cap=3, demand=3),
-            _c("n20sparse", nodes=20, cap=30, demand=10, reward="sparse"), _c("cu_pyreward", custom="pyreward", props=["C01", "C02", "C03"])
+            _c("n20sparse", nodes=20, cap=30, demand=10, reward="sparse"), _c("cu_pyreward", custom="pyreward", props=["C01", "C02", "C03"]), _c("pad12c9d4", gen="padded", nodes=12, cap=9, demand=4, props=["C01", "C02", "C03", "C04", "C05", "C06", "C08", "C09", "C11", "C12"])
         ],
     },
     "LevelBasedForaging": {
@@ -503,7 +503,9 @@ def build(env: str, cfg: Dict[str, Any]):
         from jumanji.environments.routing.cvrp.reward import DenseReward, SparseReward
 
         kw = {}
-        if "nodes" in c:
+        if c.get("gen") == "padded":
+            kw["generator"] = make_cvrp_padded_generator(c["nodes"], c["cap"], c["demand"])
+        elif "nodes" in c:
             kw["generator"] = UniformGenerator(c["nodes"], c["cap"], c["demand"])
         if "reward" in c:
             kw["reward_fn"] = SparseReward() if c["reward"] == "sparse" else DenseReward()
@@ -783,6 +785,23 @@ def make_sokoban_harness_generator(border: bool, n_levels: int = 24, seed: int =
             )
 
     return HarnessGenerator()
+
+
+def make_cvrp_padded_generator(num_nodes: int, max_capacity: int, max_demand: int):
+    """Harness CVRP generator (subclass of the public UniformGenerator): instances padded to a fixed size with dummy customers of
+    demand 0 (about a third of the customers), as a user batching instances of different sizes would build them."""
+    import jax
+    import jax.numpy as jnp
+    from jumanji.environments.routing.cvrp.generator import UniformGenerator
+
+    class PaddedGenerator(UniformGenerator):
+        def __call__(self, key):
+            state = super().__call__(key)
+            pad = jax.random.bernoulli(jax.random.fold_in(key, 99), 0.35, state.demands.shape)
+            demands = jnp.where(pad, 0, state.demands).at[0].set(0)
+            return state.replace(demands=demands)  # type: ignore
+
+    return PaddedGenerator(num_nodes, max_capacity, max_demand)
 
 
 def make_knapsack_decimal_generator(num_items: int, total_budget: float, step: float = 0.05):
